@@ -118,7 +118,15 @@ impl<'a> PrettyPrinter<'a> {
     }
 
     fn convert_list_item_like(&'a self, ctx: Context, item: &'a SyntaxNode) -> ArenaDoc<'a> {
+        // An empty term (`/ : desc`) must keep the colon apart from the marker: `/:` is text.
+        let empty_term = (item.kind() == SyntaxKind::TermItem)
+            .then(|| item.children().find(|it| it.kind() == SyntaxKind::Markup))
+            .flatten()
+            .filter(|term| term.children().next().is_none());
         self.convert_flow_like(ctx, item, |ctx, child| match child.kind() {
+            SyntaxKind::Markup if empty_term.is_some_and(|term| std::ptr::eq(term, child)) => {
+                FlowItem::spaced(self.arena.nil())
+            }
             SyntaxKind::ListMarker | SyntaxKind::EnumMarker | SyntaxKind::TermMarker => {
                 FlowItem::spaced(self.arena.text(child.text().as_str()))
             }
